@@ -93,6 +93,13 @@ def run_shard(shard, ctx):
             for ks in (("FLAT", "SPARSE", "FLAT"), ("SPARSE",), ("VMFS", "VMFSSPARSE"), ("SESPARSE", "FLAT")):
                 run_case({"kind": "vmdk", "extents": [[k, SIZES[j % 3], "RW", NAMES[j % 6] + str(j)] for j, k in enumerate(ks)],
                           "eol": eol}, ctx)
+        # extents that declare no sectors at all, at every position: they occupy nothing, what follows keeps its place
+        for k0 in ("ZERO", "FLAT", "SPARSE", "SESPARSE"):
+            for pos in (0, 1, 2, 3):
+                ext = [["FLAT", 16, "RW", "a"], ["SPARSE", 24, "RW", "b"], ["FLAT", 16, "RW", "c"]]
+                ext.insert(pos, [k0, 0, "RW", "nothing"])
+                run_case({"kind": "vmdk", "extents": ext}, ctx)
+            run_case({"kind": "vmdk", "extents": [[k0, 0, "RW", "n1"], [k0, 0, "RW", "n2"], ["FLAT", 24, "RW", "a"], ["VMFS", 16, "RW", "b"]]}, ctx)
         # several extent lines carved out of one backing file (adjacent, out of order, separated by a sparse extent)
         pieces = [(0, 40), (40, 24), (64, 16)]
         for perm in itertools.permutations(range(3)):
